@@ -238,6 +238,19 @@ impl<'r> Fam<'r> {
 			let nf = self.rng.gen_range(1..=4);
 			let mut fields = vec![];
 			for f in 0..nf {
+				// now and then the very type of an earlier field again (the builder has one node per
+				// Rust type: the second use is a second edge to the same node), maps also under
+				// their other spelling
+				let again: Vec<Ty> = fields.iter().filter(|g: &&Field| g.attr.is_none() && !matches!(g.ty, Ty::Param(_))).map(|g| g.ty.clone()).collect();
+				if !again.is_empty() && self.rng.gen_bool(0.25) {
+					let ty = match again.choose(self.rng).unwrap().clone() {
+						Ty::HashMap(t) if self.rng.gen() => Ty::BTreeMap(t),
+						Ty::BTreeMap(t) if self.rng.gen_bool(0.3) => Ty::HashMap(t),
+						t => t,
+					};
+					fields.push(Field { name: format!("f{f}"), ty, attr: None });
+					continue;
+				}
 				fields.push(self.field(format!("f{f}"), Some(i), nparams > 0));
 			}
 			if nparams > 0 && !fields.iter().any(|f| mentions_param(&f.ty)) {
